@@ -182,8 +182,30 @@ def run_history(h):
             kobj, name, idx = kobjs[st['k'] - 1]
             try:
                 if st['op'] == 'editlabel':
-                    lab = kobj.labels(name(st['s']))
-                    (lab.add if st['add'] else lab.discard)(st['a'])
+                    # the caller edits a label set by whatever public route the library offers: the set handed out by labels(s)
+                    # (as at the pinned commit), add_label/remove_label, or replace_labelling_function with an edited copy;
+                    # if none of them changes the structure the step is a no-op (flagged, the model then changes nothing)
+                    sname, want = name(st['s']), bool(st['add'])
+                    def reflected():
+                        return (st['a'] in kobj.labels(sname)) == want
+                    if not reflected():
+                        lab = kobj.labels(sname)
+                        if isinstance(lab, set):
+                            (lab.add if want else lab.discard)(st['a'])
+                    if not reflected() and hasattr(kobj, 'add_label' if want else 'remove_label'):
+                        try:
+                            getattr(kobj, 'add_label' if want else 'remove_label')(sname, st['a'])
+                        except Exception:
+                            pass
+                    if not reflected():
+                        try:
+                            cur = {x: set(kobj.labels(x)) for x in kobj.states()}
+                            (cur[sname].add if want else cur[sname].discard)(st['a'])
+                            kobj.replace_labelling_function(cur)
+                        except Exception:
+                            pass
+                    if not reflected():
+                        ev['noop'] = 1
                 else:
                     kobj.add_edge(name(st['s']), name(st['d']))
             except Exception as ex:
